@@ -26,5 +26,12 @@ def findInt (b : Bytes) : Int :=
 def decodeE (env : Env) (b : Bytes) : Except Unit Bytes := if env.utf8Ok b then .ok b else .error ()
 /-- `self.transport.close()` -/
 def closeTransport (s : CSt) : CSt := { s with closeReq := true }
+/-- `GeminiResponse(status=self.status, meta=self.meta, body=None, url=…)`: what a header line makes up, once a status is parsed -/
+def headerResponse (s : CSt) : Option Fut := s.status.map (fun st => .response st s.mta none false)
+/-- `self.response_future.set_result(r)` -/
+def setResult (s : CSt) (r : Option Fut) : CSt :=
+  match r with
+  | some f => { s with fut := f }
+  | none => s
 
 end Cl
